@@ -4,7 +4,8 @@ From Verif Require Import Base.Prelude Base.Wire Model.GroupMap Extract.Drv17.
 
 (* one entry per node whose Options field the harness can read back from the exported tree:
    a literal token (spelled as a boundary assertion) that is not inside a comment -> [0; stamp],
-   a capturing group -> [1; stamp], a back-reference -> [2; stamp].
+   a capturing group -> [1; stamp; number] (the number depends on the PRE-SCAN's tracking of n and x),
+   a back-reference -> [2; stamp].
    RegexNode.reduce (tree.go:474-477) clears IgnoreCase on every node except back-references, so
    that bit is only compared on those. *)
 Definition no_i (o : Z) : Z := Z.ldiff o opt_i.
@@ -13,7 +14,7 @@ Fixpoint e_stamps (ts : list gtok) (sts : list ostate) (its : list item) : list 
   | tok :: ts', st :: sts', it :: its' =>
       (match tok, it with
        | TLit _, INone => [0; no_i (o_opts st)]
-       | _, ICapture _ => [1; no_i (o_opts st)]
+       | _, ICapture k => [1; no_i (o_opts st); k]
        | _, IRef _ => [2; o_opts st]
        | _, _ => []
        end) ++ e_stamps ts' sts' its'
